@@ -193,6 +193,10 @@ def runDeep (_prop : String) (_f : List String) (obsS : String) : Verdict :=
   if obsS == "ok" then ⟨true, "ok", "ok", none, ["deep-unbounded"], false⟩
   else ⟨true, obsS, obsS, some ("C10", "an unbounded queue with a parked worker: " ++ obsS), ["deep-unbounded"], false⟩
 
+def runStop0 (_prop : String) (_f : List String) (obsS : String) : Verdict :=
+  if obsS == "ok" then ⟨true, "ok", "ok", none, ["capacity-0-last-drop"], false⟩
+  else ⟨true, obsS, obsS, some ("C09+C08", "the last handle of a zero-capacity queuing sink dropped while the worker returns to recv(): " ++ obsS), ["capacity-0-last-drop"], false⟩
+
 def runEmitDrop (_prop : String) (_f : List String) (obsS : String) : Verdict :=
   if obsS == "ok" then ⟨true, "ok", "ok", none, ["emit-then-last-drop"], false⟩
   else ⟨true, obsS, obsS, some ("C09+C08", "emit immediately followed by the last drop: " ++ obsS), ["emit-then-last-drop"], false⟩
